@@ -287,14 +287,16 @@ def gen_crash_ops(rng, n):
             old_final = b"OLD-FINAL"
         clean = True if op == "write" else rng.random() < 0.7
         size = total if rng.random() < 0.7 else rng.choice([total + 1, max(0, total - 1), 0, 10])
-        ops.append({"op": op, "old_final": old_final, "old_part": old_part, "chunks": chunks, "clean": clean, "size": size})
+        ops.append({"op": op, "old_final": old_final, "old_part": old_part, "chunks": chunks, "clean": clean, "size": size,
+                    "dir_removed": rng.random() < 0.2})
     return ops
 
 
 def crash_json(o, target):
     return {"op": o["op"], "old_final": None if o["old_final"] is None else hx(o["old_final"]),
             "old_part": None if o["old_part"] is None else hx(o["old_part"]),
-            "chunks": [hx(c) for c in o["chunks"]], "clean": o["clean"], "size": o["size"], "target": target}
+            "chunks": [hx(c) for c in o["chunks"]], "clean": o["clean"], "size": o["size"], "target": target,
+            "dir_removed": bool(o.get("dir_removed"))}
 
 
 def model_k(c):
@@ -309,7 +311,10 @@ def model_k(c):
     renamed = 1 if "Rename" in done else 0
     if c["op"] == "append_reader":
         return chunks + renamed                 # opening the staging file is not a durable step
-    created = 1 if ("CreateTemp" in done or "OpenFile" in done) else 0
+    # a create point reached again (or first) as the crash point means no create has succeeded yet: the retry after
+    # ENOENT (directory removed behind the backend's back) re-opens only because the first open failed
+    last = c["passed"][-1].split(":")[-1]
+    created = 1 if (("CreateTemp" in done or "OpenFile" in done) and last not in ("CreateTemp", "OpenFile")) else 0
     if not created:
         return 0
     return 1 + created + chunks + renamed       # SMkdir :: SCreateTrunc :: appends ++ [SRename]
@@ -317,9 +322,9 @@ def model_k(c):
 
 def wcase_to_coq(c):
     op = {"write": "OpWrite", "write_reader": "OpWriteReader", "append_reader": "OpAppendReader"}[c["op"]]
-    return ("{| w_op := %s; w_old_final := %s; w_old_part := %s; w_chunks := %s; w_clean := %s; w_size := %s; w_k := %d; "
+    return ("{| w_op := %s; w_old_final := %s; w_old_part := %s; w_dir_removed := %s; w_chunks := %s; w_clean := %s; w_size := %s; w_k := %d; "
             "w_obs_final := %s; w_obs_part := %s; w_obs_tmp := %s |}") % (
-        op, chopt(unh(c["old_final"])), chopt(unh(c["old_part"])), clist([ch(unh(x)) for x in c["chunks"]]),
+        op, chopt(unh(c["old_final"])), chopt(unh(c["old_part"])), cbool(bool(c.get("dir_removed"))), clist([ch(unh(x)) for x in c["chunks"]]),
         cbool(c["clean"]), cz(c["size"]), min(model_k(c), 1000), chopt(unh(c["obs_final"])), chopt(unh(c["obs_part"])), chopt(unh(c["obs_tmp"])))
 
 
@@ -477,9 +482,9 @@ def run(res, tier, seed):
     ]
 
     scale = float(os.environ.get("VERIF_SCALE") or "1")          # for development runs on a busy machine
-    nkeys = int((3000 if tier == "quick" else 60000) * scale)
+    nkeys = int((2500 if tier == "quick" else 60000) * scale)
     nlib = int((400 if tier == "quick" else 8000) * scale)
-    nops = int((150 if tier == "quick" else 1500) * scale)
+    nops = int((110 if tier == "quick" else 1500) * scale)
     t1 = time.time()
     keys = []
     for i, k in enumerate(EDGE_KEYS):
@@ -493,6 +498,14 @@ def run(res, tier, seed):
         keys.append((rng.choice([0, 0, 1, 2]), gen_root_aware_key(rng) if rng.random() < 0.12 else gen_key(rng)))
     libs = [gen_lib(rng, None) for _ in range(nlib)]
     ops = gen_crash_ops(rng, nops)
+    # history "directory cached by an earlier write, then removed behind the backend's back", followed by every write
+    # entry point with a reader that is complete / fails at the start, after the first byte, after all bytes
+    for op in ("write", "write_reader", "append_reader"):
+        for chunks, clean in (([b"a", b"bc", b"d"], True), ([b"a", b"bc", b"d"], False), ([b"x"], False), ([], False), ([], True), ([b"whole"], True)):
+            if op == "write" and not clean:
+                continue
+            ops.insert(0, {"op": op, "old_final": rng.choice([None, b"OLD"]), "old_part": rng.choice([None, b"PRE"]), "chunks": chunks, "clean": clean,
+                           "size": sum(len(x) for x in chunks), "dir_removed": True})
     # resumed append against a COMMITTED final file with no staging file (interrupted / short / exact reader):
     # AppendReader must fail to open the staging file and leave the final path alone
     for clean, size in ((False, 9), (True, 9), (True, 5), (False, 5)):
@@ -512,7 +525,7 @@ def run(res, tier, seed):
     # witness of C08_write_reader_ignores_size: clean EOF after 4 of 10 announced bytes
     ops.insert(0, {"op": "write_reader", "old_final": None, "old_part": None, "chunks": [b"\x01\x02\x03\x04"], "clean": True, "size": 10})
     batch, bidx = crash_batch(ops)
-    mcases = gen_method_cases(rng, int((300 if tier == "quick" else 4000) * scale))
+    mcases = gen_method_cases(rng, int((250 if tier == "quick" else 4000) * scale))
     kc, lc, cout, roots = run_impl(keys, libs, batch, tier, methods=mcases)
     mc = LAST_METHODS
     wc = crash_collect(ops, bidx, cout)
@@ -523,7 +536,7 @@ def run(res, tier, seed):
     res.stage("coq_eval", t2)
 
     nt_keys = {(c["root"], c["key"]) for c in kc if key_nontrivial(c["key"])}
-    nt_crash = {json.dumps([c[k] for k in ("op", "old_final", "old_part", "chunks", "clean", "size", "passed")]) for c in wc
+    nt_crash = {json.dumps([c[k] for k in ("op", "old_final", "old_part", "dir_removed", "chunks", "clean", "size", "passed")]) for c in wc
                 if c["crashed"] and not c["point"].endswith((":enter", ":return"))}
     nt_methods = {(c["key"], c["in_final"], c["in_part"]) for c in mc if c["canaries"] > 0 and key_nontrivial(bytes.fromhex(c["key"]))}
     res.cov["evaluations"] = len(kc) + len(lc) + len(wc) + len(mc)
@@ -578,7 +591,7 @@ def run(res, tier, seed):
     for idx in r["woracle"]:
         c = wc[idx]
         res.violation("a crash inside %s left neither the old nor the complete intended content at the final path" % c["op"],
-                      {"kind": "torn-final", "case": {k: c[k] for k in ("op", "old_final", "old_part", "chunks", "clean", "size", "target")}, "observed": c})
+                      {"kind": "torn-final", "case": {k: c[k] for k in ("op", "old_final", "old_part", "chunks", "clean", "size", "target", "dir_removed")}, "observed": c})
         reported = True
         break
     if failed and not reported:
@@ -605,7 +618,7 @@ def run(res, tier, seed):
         elif r["wagree"]:
             c = wc[r["wagree"][0]]
             res.violation("model and implementation disagree on the directory contents after a crash", {"kind": "correspondence", "correspondence": TIE_NAME,
-                          "case": {k: c[k] for k in ("op", "old_final", "old_part", "chunks", "clean", "size", "target")}, "observed": c,
+                          "case": {k: c[k] for k in ("op", "old_final", "old_part", "chunks", "clean", "size", "target", "dir_removed")}, "observed": c,
                           "model_steps_done": model_k(c), "disagreeing_cases": len(r["wagree"]), "oracle_fails_on_impl": False}, no_input=True, suffix="corr")
         else:
             c = lc[r["lagree"][0]]
